@@ -134,12 +134,20 @@ def pow10 (p : Int) : F64 :=
   else if p ≥ 0 then F64.ofNat (10 ^ p.toNat)
   else F64.div f64One (F64.ofNat (10 ^ (-p).toNat))
 
-/-- funcs.go round -/
+/-- `math.Round`: nearest integer, halves away from zero, computed exactly; NaN, ±Inf, ±0 pass through -/
+def f64Round (x : F64) : F64 :=
+  if x.isNaN || x.isInf || x.isZero then x
+  else if 0 ≤ x.exp2 then x                      -- already an integer
+  else
+    let d := 2 ^ (-x.exp2).toNat
+    let q := x.mant / d
+    let q' := if 2 * (x.mant % d) ≥ d then q + 1 else q
+    if q' == 0 then (if x.sign then F64.negZero else F64.zero) else F64.ofRat x.sign q' 1
+
+/-- funcs.go round: `math.Round(x*pow) / pow` -/
 def roundTo (x : F64) (p : Int) : F64 :=
   let pow := pow10 p
-  let m := F64.mul x pow
-  let m' := if F64.lt m F64.zero then F64.sub m f64Half else F64.add m f64Half
-  F64.div (F64.ofInt64 (F64.toInt64Trunc m')) pow
+  F64.div (f64Round (F64.mul x pow)) pow
 
 /-- `math.Min` -/
 def f64Min (x y : F64) : F64 :=
